@@ -29,7 +29,8 @@ DRV = os.path.join(VERIF, "ref", "c12_fuzzdrv.py")
 TARGETS_QUICK = ["pkt", "blk", "msg", "sig"]                 # the OpenPGP targets
 TARGETS_ALL = ["imp", "key", "grp", "pkt", "blk", "msg", "sig"]
 # executions per target (bounded by count, never by time); kept below the depth soaked clean (notes/c12.md)
-RUNS = {"quick": 30000, "thorough": 2000000}
+RUNS = {"quick": dict(pkt=40000, sig=40000, msg=20000, blk=3000),
+        "thorough": dict(pkt=2000000, sig=2000000, key=2000000, msg=1000000, blk=100000, imp=200000, grp=20000)}
 
 ENTRY_GROUPS = {
     "import": "import(string) and operator>> of TMCG_Card, TMCG_CardSecret, VTMF_Card, VTMF_CardSecret, TMCG_Stack<>, TMCG_StackSecret<> (both card types), mpz operator>>",
@@ -95,25 +96,28 @@ def prebuild(repo):
 def spec(tier, seed, repo):
     quick = tier == "quick"
     margs = ["--opt", "corpus=" + CORPUS]
+    # selftest knobs (mutant validation on a loaded machine): same cases, only one entry group executed / no fuzz stage
+    if os.environ.get("C12_ONLY_GROUP"):
+        margs += ["--opt", "group=" + os.environ["C12_ONLY_GROUP"]]
     if not quick:
         margs += ["--opt", "scale=100"]
     w = stage("w_c12", repo, args=margs, nshards=16, case_timeout=600 if quick else 1800, total_timeout=3600 if quick else 14400)
     targets = TARGETS_QUICK if quick else TARGETS_ALL
     seeds = _seed_dump(w["binary"], seed)
-    fargs = ["--opt", "targets=" + ",".join(targets), "--opt", "runs=%d" % RUNS[tier], "--opt", "seeds=" + seeds,
+    fargs = ["--opt", "targets=" + ",".join(targets), "--opt", "seeds=" + seeds,
              "--opt", "maxlen=2048", "--opt", "timeout=120", "--opt", "maxcrash=12"]
     for t in targets:
-        fargs += ["--opt", "bin_%s=%s" % (t, _fz_bin(t, repo))]
+        fargs += ["--opt", "bin_%s=%s" % (t, _fz_bin(t, repo)), "--opt", "runs_%s=%d" % (t, RUNS[tier][t])]
     drv = _wrapper("fuzzdrv", ['exec python3 "%s" "$@"' % DRV])
     fz = dict(binary=drv, flavour="fuzz", args=fargs, nshards=len(targets), case_timeout=900, total_timeout=3600 if quick else 6 * 3600,
               env={}, keep_recs=False, name="libfuzzer(" + ",".join(targets) + ")")
-    stages = [w, fz]
+    stages = [w] if os.environ.get("C12_SKIP_FUZZ") else [w, fz]
     if not quick:
         fast = stage("w_c12", repo, flavour="fast")
         mc = _wrapper("memcheck", ['exec valgrind -q --error-exitcode=99 --exit-on-first-error=yes --leak-check=no --num-callers=12 "%s" "$@"' % fast["binary"]])
         stages.append(dict(binary=mc, flavour="fast", args=["--opt", "corpus=" + CORPUS, "--opt", "sample=2000", "--opt", "tierplan=quick"], nshards=16, case_timeout=1800,
                            total_timeout=4 * 3600, env={}, keep_recs=False, name="memcheck(w_c12 fast, sample 2000)"))
-    floors = {"cases": 24000 if quick else 600000, "seed_accepted": 250, "fuzz_execs": int(0.9 * RUNS[tier] * len(targets)),
+    floors = {"cases": 20000 if quick else 600000, "seed_accepted": 250, "fuzz_execs": int(0.9 * sum(RUNS[tier][t] for t in targets)),
               "group.import": 1000, "group.key": 1000, "group.ctor": 1000, "group.verify": 1500, "group.pgp": 8000, "group.aio": 600}
     return dict(
         stages=stages, level="fault_enumeration",
@@ -136,7 +140,7 @@ def spec(tier, seed, repo):
                      "512/256-bit groups, 704/768-bit Rabin keys, 1024-bit RSA/DSA/ElGamal OpenPGP keys; ASan red zones miss intra-object "
                      "and far out-of-bounds accesses"],
         floors=floors,
-        extra_cov=dict(entry_groups=ENTRY_GROUPS, fuzz_targets=targets, fuzz_runs_per_target=RUNS[tier],
+        extra_cov=dict(entry_groups=ENTRY_GROUPS, fuzz_targets=targets, fuzz_runs_per_target={t: RUNS[tier][t] for t in targets},
                        sanitizers="ASan+UBSan (gcc, mutator) ; ASan+UBSan+libFuzzer (clang-14, fuzz targets) ; memcheck (thorough)",
                        seed_corpus=seeds),
     )
